@@ -114,12 +114,30 @@
 #define ELEMS_SAME(s) (IMPLIES (IN_RANGE (WP[0], DATA (s), SZ (s)), SAME_CELL (0)) && IMPLIES (IN_RANGE (WP[1], DATA (s), SZ (s)), SAME_CELL (1)))
 #define SAME(s)  (UNCHANGED_REP (s) && ELEMS_SAME (s))
 /* the first n elements are what they were (possibly relocated): destination cell WP[0], old cell WP[1] */
-#define PREFIX_KEPT(s, n) IMPLIES (IN_RANGE (WP[0], DATA (s), n) && IN_RANGE (WP[1], ODATA (s), n) && SAME_INDEX (0, 1, DATA (s), ODATA (s)), WS[0] == __CPROVER_old (WS[1]))
+#define PREFIX_KEPT(s, n) MOVED_UP (DATA (s), 0, n, ODATA (s), 0)
 /* elements [from, size ()) are copies of the entry value of *val (value watched by WP[1]) */
-#define TAIL_FILLED(s, from, val) IMPLIES (IN_RANGE (WP[0], DATA (s), SZ (s)) && OFF (WP[0]) - OFF (DATA (s)) >= ((unsigned long) (from) << ESZ_LOG2) && (val) == WP[1], WS[0] == __CPROVER_old (WS[1]))
+#define TAIL_FILLED(s, from, val) FILLED_IDX (DATA (s), from, SZ (s), val)
 /* growth (C14): a changed capacity is at least the needed size and at least 1.5x the old one, saturating at max_size () */
 #define GROWTH(s, needed) IMPLIES (CAP (s) != OCAP (s), CAP (s) >= (needed) && (CAP (s) - OCAP (s) >= (OCAP (s) >> 1) || CAP (s) == MAXSZ))
 /* no reallocation (C10) */
 #define NO_REALLOC(s) (DATA (s) == ODATA (s) && CAP (s) == OCAP (s) && alloc_calls == __CPROVER_old (alloc_calls) && dealloc_calls == __CPROVER_old (dealloc_calls))
+
+/* ---- index-based cell predicates (offsets only: no pointer arithmetic on a buffer that may have been given back) ---- */
+#define BIDX(p, base) (OFF (p) - OFF (base))
+#define IN_IDX(i, base, lo, hi) \
+  (SAMEOBJ (WP[i], base) && OFF (WP[i]) >= OFF (base) && ALIGNED (BIDX (WP[i], base)) \
+   && BIDX (WP[i], base) >= ((unsigned long) (lo) << ESZ_LOG2) && BIDX (WP[i], base) < ((unsigned long) (hi) << ESZ_LOG2))
+#define AT_IDX(i, base, k) (SAMEOBJ (WP[i], base) && OFF (WP[i]) >= OFF (base) && BIDX (WP[i], base) == ((unsigned long) (k) << ESZ_LOG2))
+/* the element now at index j of dbase (dlo <= j < dhi) is the one that was at index j - k (MOVED_UP) / j + k (MOVED_DOWN) of sbase */
+#define MOVED_UP(dbase, dlo, dhi, sbase, k) \
+  IMPLIES (IN_IDX (0, dbase, dlo, dhi) && SAMEOBJ (WP[1], sbase) && OFF (WP[1]) >= OFF (sbase) && BIDX (WP[0], dbase) == BIDX (WP[1], sbase) + ((unsigned long) (k) << ESZ_LOG2), WS[0] == __CPROVER_old (WS[1]))
+#define MOVED_DOWN(dbase, dlo, dhi, sbase, k) \
+  IMPLIES (IN_IDX (0, dbase, dlo, dhi) && SAMEOBJ (WP[1], sbase) && OFF (WP[1]) >= OFF (sbase) && BIDX (WP[0], dbase) + ((unsigned long) (k) << ESZ_LOG2) == BIDX (WP[1], sbase), WS[0] == __CPROVER_old (WS[1]))
+/* the elements at indices [lo, hi) hold the entry value of *val */
+#define FILLED_IDX(base, lo, hi, val) IMPLIES (IN_IDX (0, base, lo, hi) && (val) == WP[1], WS[0] == __CPROVER_old (WS[1]))
+/* elements at indices [lo, hi) of the (unchanged) buffer are untouched */
+#define UNCHANGED_IDX(base, lo, hi) (IMPLIES (IN_IDX (0, base, lo, hi), SAME_CELL (0)) && IMPLIES (IN_IDX (1, base, lo, hi), SAME_CELL (1)))
+/* old index of a position */
+#define OIDX(s, pos) DIVESZ (OFF (pos) - OFF (ODATA (s)))
 
 #endif
